@@ -10,10 +10,13 @@ environment, in both deterministic and nondeterministic mode."
 
 This file: the deterministic traversal `_visit` on finite trees (all shapes, the
 deep branch anywhere: the statement is in terms of `Json.depth`, a max over
-branches).  Cyclic data and the nondeterministic mode are in `C18Graph`/`C17`.
+branches), and the nondeterministic traversal for EVERY choice script (`C18_nd_*`).
+Cyclic data is not a finite `Json` value: it is explored on the real code only.
 -/
 import JPV.Props.Common
 import JPV.Proofs.Visit
+import JPV.Proofs.NonDet
+import JPV.Proofs.NonDetDepth
 namespace JPV.Props
 open JPV
 
@@ -44,6 +47,24 @@ theorem C18_raise (max : Int) (loc : Loc) (v : Json) (h : (v.depth : Int) > max)
 /-- the work done is bounded by the size of the document -/
 theorem C18_steps (max : Int) (loc : Loc) (v : Json) :
     (Impl.visit max 1 loc v).1.length ≤ v.size := Proofs.visit_length max loc v
+
+/-- nondeterministic mode, same limit, every choice script: on a value nested deeper than the limit the
+traversal ends in JSONPathRecursionError whatever the coin flips and shuffles are (and whatever the continuation
+does with the nodes it is handed, as long as it does not fail itself) — never the model's `.fuel` (a hang) -/
+theorem C18_nd_raise (max : Int) (root : Node) (s : Impl.ND.Script) (k : Node → Impl.ND.Script → Impl.ND.Out)
+    (hk : ∀ n s', (k n s').err = none) (h1 : 1 ≤ max) (hd : max < (root.val.depth : Int)) :
+    (Impl.ND.visit max root s k).err = some .recursion := Proofs.nd_visit_raises max root s k hk h1 hd
+
+/-- query level, `$..[selectors]` as the first segment of a filter-free query in nondeterministic mode:
+deeper than the limit ⇒ JSONPathRecursionError for every script; within the limit ⇒ completes (C17_partial) -/
+theorem C18_nd_find_raise (env : Impl.Env) (sels : List Selector) (rest : List Segment) (v : Json) (s : Impl.ND.Script)
+    (hff : Spec.filterFree (.desc sels :: rest) = true)
+    (h1 : 1 ≤ env.maxDepth) (hd : env.maxDepth < (v.depth : Int)) :
+    Impl.ND.find env (.desc sels :: rest) v s = .error .recursion := Proofs.nd_find_raises env sels rest v s hff h1 hd
+
+theorem C18_nd_complete (env : Impl.Env) (reg : Spec.Registry) (q : Query) (v : Json) (s : Impl.ND.Script)
+    (hff : Spec.filterFree q = true) (hw : v.WF) (hd : (v.depth : Int) ≤ env.maxDepth) (h1 : 1 ≤ env.maxDepth) :
+    ∃ r, Impl.ND.find env q v s = .ok r ∧ r.Perm (Spec.select reg q v) := Proofs.nd_find_perm env reg q v s hff hw hd h1
 
 example : (Impl.visit 2 1 [] (.arr [.arr [.arr []]])).2 = some .recursion := by decide
 example : (Impl.visit 3 1 [] (.arr [.arr [.arr []]])).2 = none := by decide
